@@ -3,6 +3,7 @@ package main
 import (
 	"fmt"
 	"math/big"
+	"sort"
 
 	"github.com/cometbft/cometbft/abci/types"
 
@@ -17,7 +18,9 @@ import (
 	registry "github.com/oasisprotocol/oasis-core/go/registry/api"
 	roothash "github.com/oasisprotocol/oasis-core/go/roothash/api"
 	staking "github.com/oasisprotocol/oasis-core/go/staking/api"
+	upgrade "github.com/oasisprotocol/oasis-core/go/upgrade/api"
 	vault "github.com/oasisprotocol/oasis-core/go/vault/api"
+	"github.com/oasisprotocol/oasis-core/go/common/version"
 
 	"verifharness/internal/muxdrv"
 )
@@ -198,8 +201,13 @@ func (w *world) randomTx(local map[staking.Address]uint64) (genTx, bool) {
 		// reclaim: prefer an existing delegation of k, often ALL its shares
 		sh := big.NewInt(0)
 		if w.prev != nil {
-			for esc, m := range w.prev.delegs {
-				if d, ok := m[k.Address()]; ok && (r.Chance(60) || sh.Sign() == 0) {
+			var escs []staking.Address // sorted: map order must not influence the random stream
+			for esc := range w.prev.delegs {
+				escs = append(escs, esc)
+			}
+			sort.Slice(escs, func(a, b int) bool { return escs[a].String() < escs[b].String() })
+			for _, esc := range escs {
+				if d, ok := w.prev.delegs[esc][k.Address()]; ok && (r.Chance(60) || sh.Sign() == 0) {
 					to, sh = esc, d.Shares.ToBigInt()
 				}
 			}
@@ -226,9 +234,34 @@ func (w *world) randomTx(local map[staking.Address]uint64) (genTx, bool) {
 		ids := w.proposalIDs()
 		switch {
 		case len(ids) == 0 || r.Chance(25):
-			if r.Chance(15) {
-				tx := muxdrv.TxSubmitCancelUpgrade(w.nextNonce(k, local), w.fee(true), uint64(r.Intn(5)))
+			if r.Chance(20) {
+				// cancel a pending upgrade when there is one (else a random id: fails at submit)
+				id := uint64(r.Intn(5))
+				if w.prev != nil {
+					for _, p := range w.prev.props {
+						if p.Content.Upgrade != nil && p.State == governance.StatePassed && r.Chance(70) {
+							id = p.ID
+						}
+					}
+				}
+				tx := muxdrv.TxSubmitCancelUpgrade(w.nextNonce(k, local), w.fee(true), id)
 				return genTx{raw: muxdrv.Sign(k, tx), kind: "submit_cancel_upgrade"}, true
+			}
+			if r.Chance(25) {
+				// upgrade proposal; with no upgrader installed (as in this harness) a pending upgrade is
+				// simply removed at its epoch (governance.go:212-219), with one the node stops by design
+				ep := uint64(1)
+				if w.prev != nil {
+					ep = w.prev.epoch
+				}
+				at := ep + 3 + uint64(r.Intn(3)) // UpgradeMinEpochDiff = 3
+				if r.Chance(15) {
+					at = ep + uint64(r.Intn(3)) // too soon
+				}
+				d := upgrade.Descriptor{Versioned: cbor.NewVersioned(upgrade.LatestDescriptorVersion), Handler: upgrade.HandlerName(fmt.Sprintf("verif-%d", r.Intn(3))), Target: version.Versions, Epoch: beacon.EpochTime(at)}
+				tx := governance.NewSubmitProposalTx(w.nextNonce(k, local), w.fee(true), &governance.ProposalContent{
+					Metadata: &governance.ProposalMetadata{Title: "verif upgrade"}, Upgrade: &governance.UpgradeProposal{Descriptor: d}})
+				return genTx{raw: muxdrv.Sign(k, tx), kind: "submit_upgrade"}, true
 			}
 			return genTx{raw: muxdrv.Sign(k, w.changeParamsTx(w.nextNonce(k, local), w.fee(true), true)), kind: "submit_change_params"}, true
 		default:
